@@ -34,6 +34,7 @@ fn surface_shape(mon: &mut Monitor) {
     if let Some(mut c) = mon.begin("Vec3A / Mat3A / Affine3A", "public views expose three elements per column") {
         let v = Vec3A::new(1.0, 2.0, 3.0);
         let checks: Vec<(&'static str, usize, usize)> = vec![
+            #[cfg(not(feature = "scalar-math"))]
             ("size_of_val(&*Vec3A) (Deref target)", core::mem::size_of_val(&*v), 12),
             ("Vec3A::to_array().len()", v.to_array().len(), 3),
             ("AsRef<[f32; 3]> of Vec3A", { let a: &[f32; 3] = v.as_ref(); a.len() }, 3),
